@@ -663,9 +663,10 @@ def correspond(ctx):
       if not (fc is IRR or any(v is IRR for v in fm + fv)):
         lines.append(upd_line('R', case, b, fc, fm, fv, case['lo'], case['hi']))
         checks.append(('updR', (case, i, fracs[i + 1])))
-      cnt, ms, vs, _ = flat_state_real(reals[i])
-      lines.append(upd_line('F', case, b, cnt, ms, vs, case['lo'], case['hi']))
-      checks.append(('updF', (case, i, reals[i], reals[i + 1], fracs[i + 1])))
+      if ctx.tier != 'thorough' or h % 2 == 0:     # float mode on every other history in thorough (Lean time)
+        cnt, ms, vs, _ = flat_state_real(reals[i])
+        lines.append(upd_line('F', case, b, cnt, ms, vs, case['lo'], case['hi']))
+        checks.append(('updF', (case, i, reals[i], reals[i + 1], fracs[i + 1])))
     lines.append(hist_line('R', case, case['lo'], case['hi']))
     checks.append(('histR', (case, fracs[-1])))
     if h % 3 == 0:
